@@ -133,8 +133,9 @@ def nextRunning (hdr : PicHdr) (running : Nat) : Nat :=
     (hdr.options &&& Opt.compl Opt.OPPTYPE_OPTIONS &&& Opt.compl Opt.MPPTYPE_OPTIONS) |||
       (running &&& (Opt.OPPTYPE_OPTIONS ||| Opt.MPPTYPE_OPTIONS))
 
-/-- `decode_next_picture`: the new state and the advanced cursor, or an error (state and cursor unchanged) -/
-def decodeNextPicture (s : State) (c : Cur) : Out (State × Cur) := do
+/-- Everything `decode_next_picture` does before it touches `self`: parse, reconstruct.  Reads the state only
+through `opts`, `running`, `getLast` and `getRef`.  Returns the header, the finished picture, the cursor. -/
+def decodeCore (s : State) (c : Cur) : Out (PicHdr × DecPic × Cur) := do
   let (ohdr, c1) ← Header.decodePicture s.opts (s.getLast.map (·.hdr)) c
   match ohdr with
   | none => .err .middleOfBitstream
@@ -169,11 +170,21 @@ def decodeNextPicture (s : State) (c : Cur) : Out (State × Cur) := do
   let luma ← Idct.idctChannel l.lumaLv pic.luma (mbPerLine * 2) w
   let cb ← Idct.idctChannel l.cbLv pic.cb mbPerLine pic.chromaSpr
   let cr ← Idct.idctChannel l.crLv pic.cr mbPerLine pic.chromaSpr
-  let pic := { pic with luma := luma, cb := cb, cr := cr }
+  pure (hdr, { pic with luma := luma, cb := cb, cr := cr }, l.cur)
+
+/-- The state mutation at the end of `decode_next_picture` (all of it sits after the last fallible step):
+an I picture clears the reference; the picture is filed under its temporal reference (disposable pictures
+under `tr | 0x8000`); it becomes the last picture and, unless disposable, the reference; then `cleanup_buffers`. -/
+def commitPic (s : State) (hdr : PicHdr) (pic : DecPic) : State :=
   let ref' := if hdr.picType = .iFrame then none else s.ref
   let disp := hdr.picType.isDisposable
   let key := hdr.tr ||| (if disp then 0x8000 else 0)
   let s' : State := { s with last := some key, ref := if disp then ref' else some key, store := insert s.store key pic }
-  pure (s'.cleanup, l.cur)
+  s'.cleanup
+
+/-- `decode_next_picture`: the new state and the advanced cursor, or an error (state and cursor unchanged) -/
+def decodeNextPicture (s : State) (c : Cur) : Out (State × Cur) := do
+  let (hdr, pic, c') ← decodeCore s c
+  pure (commitPic s hdr pic, c')
 
 end H263V.State
